@@ -124,6 +124,9 @@ type model struct {
 	// Finalise(true) and was still in the dirty set when a Finalise/Commit without
 	// the deletion flag ran (observed through the hook). Label only.
 	rewritten map[int]bool
+	// flushedNZ: slots that were non-zero when the account trie was last flushed
+	// (Finalise/Commit), i.e. non-zero in the storage trie. Coverage only.
+	flushedNZ map[[2]int]bool
 	// revTouchPeriod / revTouchLife: the reverted credit hit an account no setter
 	// had been called on before (the situation of hypothesis F5), in the current
 	// finalise period / in this object's lifetime. Used for the observation gate.
@@ -133,11 +136,11 @@ type model struct {
 }
 
 func newModel() *model {
-	return &model{w: newWorld(), maybeDirty: map[int]bool{}, poison: map[int]bool{}, poisonSticky: map[int]bool{}, rewritten: map[int]bool{}, revTouchPeriod: map[int]bool{}, revTouchLife: map[int]bool{}, curTx: -1}
+	return &model{w: newWorld(), maybeDirty: map[int]bool{}, poison: map[int]bool{}, poisonSticky: map[int]bool{}, rewritten: map[int]bool{}, flushedNZ: map[[2]int]bool{}, revTouchPeriod: map[int]bool{}, revTouchLife: map[int]bool{}, curTx: -1}
 }
 
 func (m *model) clone() *model {
-	n := &model{w: m.w.clone(), maybeDirty: map[int]bool{}, poison: map[int]bool{}, poisonSticky: map[int]bool{}, rewritten: map[int]bool{}, revTouchPeriod: map[int]bool{}, revTouchLife: map[int]bool{}, curTx: m.curTx}
+	n := &model{w: m.w.clone(), maybeDirty: map[int]bool{}, poison: map[int]bool{}, poisonSticky: map[int]bool{}, rewritten: map[int]bool{}, flushedNZ: map[[2]int]bool{}, revTouchPeriod: map[int]bool{}, revTouchLife: map[int]bool{}, curTx: m.curTx}
 	for _, s := range m.snaps {
 		n.snaps = append(n.snaps, s.clone())
 	}
@@ -152,6 +155,9 @@ func (m *model) clone() *model {
 	}
 	for a, v := range m.rewritten {
 		n.rewritten[a] = v
+	}
+	for k, v := range m.flushedNZ {
+		n.flushedNZ[k] = v
 	}
 	for a, v := range m.revTouchPeriod {
 		n.revTouchPeriod[a] = v
@@ -183,8 +189,9 @@ type events struct {
 	wroteAfterRevTouchLater      bool
 	revertAcrossSuicideRecreated bool
 	revertChanged                bool
-	revertDepth                  int // live snapshots before the revert
-	revertLevels                 int // snapshots discarded
+	revertDepth                  int  // live snapshots before the revert
+	revertLevels                 int  // snapshots discarded
+	revertToClearedSlot          bool // the revert restored a pending clear of a slot that is non-zero in the trie
 	suicideExpect                bool
 	ambiguous                    []int // adopted decisions at a finalise
 	deletedEmpty                 int
@@ -216,6 +223,11 @@ func (m *model) apply(o *op, cs *caseInput, adopt func(a int) bool) events {
 		}
 		w.acc[o.A] = n
 		m.mark(o.A)
+		for k := range m.flushedNZ {
+			if k[0] == o.A {
+				delete(m.flushedNZ, k)
+			}
+		}
 	case "addbal", "touch":
 		_, existed := w.acc[o.A]
 		wasDirty := m.maybeDirty[o.A]
@@ -323,6 +335,16 @@ func (m *model) apply(o *op, cs *caseInput, adopt func(a int) bool) events {
 				m.revTouchLife[a] = true
 			}
 		}
+		for k := range m.flushedNZ {
+			x, y := old.acc[k[0]], m.w.acc[k[0]]
+			if x != nil && y != nil {
+				_, now := x.stor[k[1]]
+				_, then := y.stor[k[1]]
+				if now && !then {
+					ev.revertToClearedSlot = true
+				}
+			}
+		}
 		for a, x := range old.acc {
 			y := m.w.acc[a]
 			if x.suicided && y != nil && !y.suicided && m.w.recreated[a] {
@@ -362,6 +384,12 @@ func (m *model) finalise(del bool, adopt func(a int) bool, ev *events) {
 					delete(w.acc, a)
 				}
 			}
+		}
+	}
+	m.flushedNZ = map[[2]int]bool{}
+	for a, x := range w.acc {
+		for sl := range x.stor {
+			m.flushedNZ[[2]int{a, sl}] = true
 		}
 	}
 	w.touched = map[int]bool{}
